@@ -351,7 +351,8 @@ package graphql
 //@   ghost approved *Selection
 //@   call ShouldIncludeNode assert arg0 == selection.Directives
 //@   call ShouldIncludeNode ghost approved = ite(ret0 && ret1 == nil, selection, nil)
-//@   call mapupdate#1 assert approved == selection
+//@   call mapupdate#1 assert approved == selection && arg1 == selection.Alias && arg2 == any(typ.Name)      // __typename: keyed by the alias, valued by the object's name
+//@   call mapupdate#2 assert arg1 == selection.Alias && arg2 == any(filler)                                // every other field: its own output node under its alias
 //@   call newOutputNode#1 assert approved == selection && arg1 == selection.Alias
 
 // ---- C01 (union dispatch): every member type that has sources is handed to resolveObjectBatch exactly once, with all of
